@@ -2,7 +2,7 @@
 
 use super::broker::{rand_bytes, rand_topic};
 use super::util::{PubLine, filter_text};
-use super::{CfgSpec, ConnSpec, Drv, Out};
+use super::{CfgSpec, ConnSpec, Drv, Out, wire};
 use crate::parse::{PropSpec, hex};
 
 fn small_publish(d: &mut Drv, qos: u8) -> String {
@@ -84,7 +84,9 @@ pub fn wrap(out: &mut Out, count: u64) {
         let mut kinds = Vec::new();
         for i in 0..n_long {
             let id = i as u16 + 1;
-            match d.rng.below(4) {
+            // Every fourth program has a QoS 2 exchange in its release phase across the wrap.
+            let choice = if i == 0 && idx % 4 == 1 { 4 } else { d.rng.below(5) };
+            match choice {
                 0 => {
                     let l = small_publish(&mut d, 1);
                     d.x(&l);
@@ -105,6 +107,12 @@ pub fn wrap(out: &mut Out, count: u64) {
                     kinds.push("sub");
                     keep.push(id);
                 }
+                3 => {
+                    d.x(&format!("unsubscribe - {}", hex(b"l/#")));
+                    d.go();
+                    kinds.push("unsub");
+                    keep.push(id);
+                }
                 _ => {
                     // QoS 2 in its release phase: PUBREC delivered, PUBCOMP withheld.
                     let l = small_publish(&mut d, 2);
@@ -118,6 +126,24 @@ pub fn wrap(out: &mut Out, count: u64) {
                     kinds.push("rel");
                     keep.push(id);
                 }
+            }
+        }
+        // Before the wrap point: acknowledgements of the wrong kind for the long-lived ids.
+        let wrong = d.rng.pct(50);
+        if wrong {
+            for (n, (id, kind)) in keep.clone().iter().zip(kinds.clone()).enumerate() {
+                let (label, bytes) = match kind {
+                    "q2" | "rel" => ("wrong-puback", wire::ack(0x40, *id, None, None)),
+                    "q1" if n % 2 == 0 => ("wrong-pubrec", wire::ack(0x50, *id, None, None)),
+                    "q1" => ("wrong-unsuback", wire::suback(0xb0, *id, &[0])),
+                    "sub" => ("wrong-unsuback", wire::suback(0xb0, *id, &[0])),
+                    _ => ("wrong-suback", wire::suback(0x90, *id, &[0])),
+                };
+                d.send_raw(label, &bytes);
+                if !d.suspended() {
+                    d.x("poll");
+                }
+                d.go();
             }
         }
         d.x("cancel");
@@ -134,8 +160,9 @@ pub fn wrap(out: &mut Out, count: u64) {
         deliver_some(&mut d, &keep, true);
         d.drain();
         let tags = format!(
-            "setpid={start} recvmax={} long={}",
+            "setpid={start} recvmax={} wrongacks={} long={}",
             recv_max.map(|m| m.to_string()).unwrap_or("-".into()),
+            wrong as u8,
             kinds.join("+")
         );
         out.emit(idx, "", &tags, &d);
